@@ -48,9 +48,9 @@ Fixpoint un_item (s : sx) : option item :=
   | SL [SZ 3; b] => match un_bool b with Some b => Some (ILit (LBool b)) | None => None end
   | SL [SZ 4; SZ z] => Some (ILit (LInt z))
   | SL [SZ 5; SZ c; SZ d] => Some (ILit (LIndex c d))
-  | SL [SZ 6; SZ f] => Some (ILit (LFloat f))
+  | SL [SZ 6; SZ f] => Some (ILit (LFloat (f_canon f)))
   | SL [SZ 7; v] => match un_list un_bool v with Some v => Some (ILit (LBoolVec v)) | None => None end
   | SL [SZ 8; v] => match un_zlist v with Some v => Some (ILit (LIntVec v)) | None => None end
-  | SL [SZ 9; v] => match un_zlist v with Some v => Some (ILit (LFloatVec v)) | None => None end
+  | SL [SZ 9; v] => match un_zlist v with Some v => Some (ILit (LFloatVec (map f_canon v))) | None => None end
   | _ => None
   end.
